@@ -4,6 +4,7 @@ import (
 	"fmt"
 	"go/ast"
 	"go/token"
+	"go/types"
 	"golang.org/x/tools/go/cfg"
 	"strings"
 )
@@ -296,22 +297,66 @@ func checkDeferredSuccessBroadcast(r *Reporter, p *Prog, pkg, typ, method, cond 
 	}
 	info := p.Pkg(pkg).TypesInfo
 	f := newFuncCFG(p, info, fd.Body, funcKey(pkg, fd))
+	// the named bool results of the method (the success flag the deferred wake-up is guarded by)
+	resultFlags := map[types.Object]bool{}
+	if fd.Type.Results != nil {
+		for _, fl := range fd.Type.Results.List {
+			for _, nm := range fl.Names {
+				if o := info.Defs[nm]; o != nil {
+					if bt, ok := o.Type().Underlying().(*types.Basic); ok && bt.Kind() == types.Bool {
+						resultFlags[o] = true
+					}
+				}
+			}
+		}
+	}
+	// a deferred wake-up: a deferred function literal, or a deferred unexported helper that gets
+	// a pointer to the flag, whose body broadcasts on cond under `if <flag>` / `if *<pointer>`
 	isDeferredWake := func(n ast.Node) bool {
 		ds, ok := n.(*ast.DeferStmt)
 		if !ok {
 			return false
 		}
-		lit, ok := ds.Call.Fun.(*ast.FuncLit)
-		if !ok {
+		body, _ := callableBody(p, info, ds.Call.Fun)
+		if body == nil {
+			return false
+		}
+		flagExprOK := func(e ast.Expr) bool {
+			e = ast.Unparen(e)
+			if id, ok := e.(*ast.Ident); ok {
+				return resultFlags[info.Uses[id]]
+			}
+			if st, ok := e.(*ast.StarExpr); ok {
+				// *param where the defer passes &<result flag> for that parameter
+				po := objOfIdent(info, st.X)
+				if po == nil {
+					return false
+				}
+				if fn, _ := info.Uses[selIdent(ds.Call.Fun)].(*types.Func); fn != nil {
+					if hd := p.decls().byFunc[fn.Origin()]; hd != nil {
+						i := 0
+						for _, fl := range hd.Type.Params.List {
+							for _, nm := range fl.Names {
+								if info.Defs[nm] == po && i < len(ds.Call.Args) {
+									if ue, ok := ast.Unparen(ds.Call.Args[i]).(*ast.UnaryExpr); ok && ue.Op == token.AND {
+										return resultFlags[objOfIdent(info, ue.X)]
+									}
+								}
+								i++
+							}
+						}
+					}
+				}
+			}
 			return false
 		}
 		found := false
-		ast.Inspect(lit.Body, func(m ast.Node) bool {
+		ast.Inspect(body, func(m ast.Node) bool {
 			is, ok := m.(*ast.IfStmt)
 			if !ok {
 				return true
 			}
-			if id, ok := ast.Unparen(is.Cond).(*ast.Ident); ok && id.Name == "success" {
+			if flagExprOK(is.Cond) {
 				ast.Inspect(is.Body, func(k ast.Node) bool {
 					if c, ok := k.(*ast.CallExpr); ok {
 						if m2, cf, _, ok := condCall(info, c); ok && m2 == "Broadcast" && cf == cond {
@@ -567,7 +612,16 @@ func checkDAGMutex(r *Reporter, p *Prog) {
 				return false
 			}
 			se, ok := ast.Unparen(c.Fun).(*ast.SelectorExpr)
-			return ok && se.Sel.Name == "Set" && fieldSel(info, se.X, "consumerCounter") && exprKey(c.Args[1]) == "(count+1)"
+			if !ok || se.Sel.Name != "Set" || !fieldSel(info, se.X, "consumerCounter") {
+				return false
+			}
+			pt, okp := f.PointOf(c)
+			k := ""
+			if okp {
+				k = f.KeyAt(c.Args[1], pt)
+			}
+			// the stored value is the current count of this entity plus one (any local name)
+			return strings.Contains(k, ".consumerCounter.Get(") && strings.HasSuffix(k, "+1)")
 		}
 		if _, found := f.reach(f.entry(), &searchOpts{AvoidNode: isInc}, func(pt Point, atExit bool) bool { return atExit }); found {
 			r.Fail("dag/consumer-count", pkg+".DAGMutex.registerMutex", f.P.posStr(f.Body.Pos()), "a path registers without incrementing the consumer count")
@@ -581,8 +635,11 @@ func checkDAGMutex(r *Reporter, p *Prog) {
 	if f := p.CFGOf(pkg, "DAGMutex", "unregisterMutex"); f == nil {
 		r.Unresolved("dag/consumer-count", pkg+".DAGMutex.unregisterMutex", "method not found")
 	} else {
-		last := f.RelEdges(func(rel Rel) bool {
-			return rel.Op == "==" && ((rel.L == "1" && rel.R == "count") || (rel.L == "count" && rel.R == "1"))
+		isCount := func(k string) bool {
+			return strings.Contains(k, ".consumerCounter.Get(") && !strings.ContainsAny(k, "+-")
+		}
+		last := f.RelEdgesAt(func(rel Rel) bool {
+			return rel.Op == "==" && ((rel.L == "1" && isCount(rel.R)) || (isCount(rel.L) && rel.R == "1"))
 		})
 		dels := f.Find(func(nd ast.Node) bool {
 			c, ok := nd.(*ast.CallExpr)
@@ -603,7 +660,15 @@ func checkDAGMutex(r *Reporter, p *Prog) {
 		} else {
 			r.Fail("dag/consumer-count", pkg+".DAGMutex.unregisterMutex last-consumer", f.P.posStr(f.Body.Pos()), "registry entries must be removed exactly when the last consumer leaves (count == 1)")
 		}
-		_, absent := f.CondEdges(func(e ast.Expr) bool { return exprKey(e) == "mutexExists" })
+		var absent []Edge
+		f.forEachEdgeFact(func(e Edge, b *cfg.Block, ft fact) {
+			if ft.Pol {
+				return
+			}
+			if c, idx := f.AtomCall(ft.Atom, Point{b, len(b.Nodes) - 1}); c != nil && idx == 1 && strings.HasSuffix(rawKey(c.Fun), ".mutexes.Get") {
+				absent = append(absent, e)
+			}
+		})
 		okPanic := len(absent) > 0
 		for _, e := range absent {
 			if _, found := f.reach(Point{e.From.Succs[e.Succ], 0}, nil, func(pt Point, atExit bool) bool { return atExit }); found {
@@ -621,10 +686,18 @@ func checkDAGMutex(r *Reporter, p *Prog) {
 				return false
 			}
 			se, ok := ast.Unparen(c.Fun).(*ast.SelectorExpr)
-			return ok && se.Sel.Name == "Set" && fieldSel(info, se.X, "consumerCounter") && exprKey(c.Args[1]) == "(count-1)"
+			if !ok || se.Sel.Name != "Set" || !fieldSel(info, se.X, "consumerCounter") {
+				return false
+			}
+			pt, okp := f.PointOf(c)
+			k := ""
+			if okp {
+				k = f.KeyAt(c.Args[1], pt)
+			}
+			return strings.Contains(k, ".consumerCounter.Get(") && strings.HasSuffix(k, "-1)")
 		}
-		notLast := f.RelEdges(func(rel Rel) bool {
-			return rel.Op == "!=" && ((rel.L == "1" && rel.R == "count") || (rel.L == "count" && rel.R == "1"))
+		notLast := f.RelEdgesAt(func(rel Rel) bool {
+			return rel.Op == "!=" && ((rel.L == "1" && isCount(rel.R)) || (isCount(rel.L) && rel.R == "1"))
 		})
 		bad := len(notLast) == 0
 		for _, e := range notLast {
